@@ -869,7 +869,7 @@ _UNDECIDED_IN_BUILD = {
     'c09_views_array_1_dm2', 'c09_views_array_2_dm1', 'c14_external_d0_dd1', 'c15_fixed_d1_cap2_m2',
     'c17_proj_formula_npc_neg', 'c17_proj_formula_npc_pos', 'c17_proj_formula_spc_neg', 'c17_proj_formula_spc_pos',
     'c17_proj_npc_neg', 'c17_proj_npc_pos', 'c17_proj_spc_neg', 'c17_proj_spc_pos',
-    'c11_point_eqr_n3_q0', 'c11_point_eqr_n3_q2', 'c11_point_eqr_n5_q0', 'c11_point_eqr_n5_q1', 'c11_point_eqr_n5_q2', 'c11_point_eqr_n5_q3', 'c11_point_spc_n5_q0',
+    'c11_point_eqr_n3_q0', 'c11_point_eqr_n3_q2', 'c11_point_eqr_n5_q0', 'c11_point_eqr_n5_q1', 'c11_point_eqr_n5_q2', 'c11_point_eqr_n5_q3', 'c11_point_spc_n5_q0', 'c11_point_spc_n3_q0',
 }
 for _pid, _p in PROPS.items():
     _rx = _re.compile(_KEEP_T.get(_pid, '.'))
